@@ -40,6 +40,7 @@ class NodeCtl:
         self.updates = 0
         self.running = True
         self.hold_until = 0    # the application takes no new command before this instant (it keeps polling)
+        self.no_read = False   # the application keeps calling update() but leaves received messages in the queue
 
     @property
     def addr(self):
@@ -152,6 +153,8 @@ class Net:
 
     def _drain(self, nc):
         node = nc.node
+        if nc.no_read:
+            return
         while node.available():
             f = node.read()
             if f is None:
